@@ -82,10 +82,11 @@ class Roles:
             raise AnalysisError(f"{self.add.qual}: no helper that constructs a link between two nodes")
         passes = []
         for c, t in self.self_calls(self.calc):
-            if t.kind == 'method' and any(t2 is t for _, t2 in self.self_calls(t)) and t not in passes:
+            if t.kind == 'method' and t not in passes and t not in (self.connect, self.new_node, self.insert, self.add) \
+                    and _pass_field(t) is not None:
                 passes.append(t)
         if len(passes) != 2:
-            raise AnalysisError(f"{self.calc.qual}: expected two recursive passes, found {[p.qual for p in passes]}")
+            raise AnalysisError(f"{self.calc.qual}: expected two passes storing a node field, found {[p.qual for p in passes]}")
         self.passes = passes
 
     def self_calls(self, f: Func) -> List[Tuple[ast.Call, Func]]:
@@ -138,12 +139,29 @@ def check(ctx):
         return
 
     model: Dict[str, object] = {}
+    try:
+        _discover(ctx, R, model)
+    except AnalysisError as e:
+        o = ctx.ob('no-float-eq', 'R8', "calculator anchors", floor=1)
+        o.fail(str(e))
+        return
+
+    def guarded(o, fn):
+        """like ctx.guarded, and a crash of one rule body does not take the verdicts of the others with it"""
+        try:
+            fn(o)
+        except AnalysisError as e:
+            o.fail(str(e))
+        except Exception as e:      # noqa: BLE001 - reported as ANALYSIS-ERROR of this obligation, never as a verdict
+            import traceback
+            tb = traceback.extract_tb(e.__traceback__)[-1]
+            o.fail(f"rule body crashed: {type(e).__name__}: {e} (c12.py:{tb.lineno})")
 
     o_arc = ctx.ob('leaf-arcs', 'R8',
                    "only tasks without children become arcs; an arc is a link of max((estimate or 0) - (spent or 0), 0) units "
                    "between two fresh registered nodes, stored in the arc table under the task id; every WBS task is offered "
                    "to the builder", floor=7)
-    ctx.guarded(o_arc, lambda o: _leaf_arcs(ctx, R, model, o))
+    guarded(o_arc, lambda o: _leaf_arcs(ctx, R, model, o))
 
     o_inh = ctx.ob('inherit', 'R8',
                    "the arc builder receives the predecessors of the task and of all its ancestors (all_parents), each "
@@ -152,7 +170,7 @@ def check(ctx):
                    "every predecessor id handed to the arc builder is a key of the arc table: it was inserted before, is a "
                    "leaf (the summary early-return cannot skip it), the table is keyed alike on both sides and written "
                    "unconditionally; a task is inserted once", floor=5)
-    ctx.guarded(o_inh, lambda o: _inherit_registered(ctx, R, model, o_inh, o_reg))
+    guarded(o_inh, lambda o: _inherit_registered(ctx, R, model, o_inh, o_reg))
     if o_inh.error and not o_reg.error:
         o_reg.fail(o_inh.error)
 
@@ -163,13 +181,64 @@ def check(ctx):
     o_eq = ctx.ob('no-float-eq', 'R8',
                   "the zero-slack selection is a comparison with a positive absolute tolerance, never an exact ==/!= (or a "
                   "relative tolerance against 0) between float terms", floor=1)
-    ctx.guarded(o_pass, lambda o: _passes(ctx, R, model, o_pass, o_eq))
+    guarded(o_pass, lambda o: _passes(ctx, R, model, o_pass, o_eq))
     if o_pass.error and not o_eq.error and not o_eq.sites:
         o_eq.fail(o_pass.error)
 
     o_pure = ctx.ob('pure', 'R9a', "no store to Task/WBS state (or any object not allocated by the call) in the reach of "
                                    "WBS.critical_path", floor=8)
-    ctx.guarded(o_pure, lambda o: _pure(ctx, R, o))
+    guarded(o_pure, lambda o: _pure(ctx, R, o))
+
+
+# ---------------------------------------------------------------------------------------------------------------------
+def _discover(ctx, R: Roles, model):
+    """best-effort facts about the calculator shared by the obligations (no verdicts here); attributes that cannot be
+    identified get a placeholder that matches nothing"""
+    _network_model(ctx, R, model, None)
+    via = model['connect_fields']
+    add, ins, con, init = R.add, R.insert, R.connect, R.init
+    acfg = cfg_of(add)
+    for st, table, key, val in _subscript_stores(add):
+        if isinstance(key, ast.Name) and key.id in add.params and isinstance(table.value, ast.Name) \
+                and table.value.id == add.self_name:
+            model.setdefault('links_attr', table.attr)
+            model.setdefault('arc_store', st)
+            model.setdefault('id_param', key.id)
+    if R.new_node is not None:
+        for c in facts.calls_named(R.new_node, 'append'):
+            rv = c.func.value
+            if isinstance(rv, ast.Attribute) and isinstance(rv.value, ast.Name) and rv.value.id == R.new_node.self_name:
+                model.setdefault('nodes_attr', rv.attr)
+    for c in R.calls_to(add, con):
+        if not acfg.enclosing_fors(acfg.node_containing(c)):
+            b = bind_args(c, con)
+            model.setdefault('arc_start', b.get(via.get('start')))
+            model.setdefault('arc_end', b.get(via.get('end')))
+    for n in walk_no_nested(add.node):
+        if isinstance(n, ast.For) and isinstance(n.iter, ast.Name) and n.iter.id in add.params:
+            model.setdefault('dep_loop', n)
+            model.setdefault('pred_param', n.iter.id)
+    calls = R.calls_to(ins, add)
+    if len(calls) == 1:
+        model['add_call'] = calls[0]
+    task_p = ins.params[1] if len(ins.params) > 1 else None
+    model['task_param'] = task_p
+    for st, table, key, val in _subscript_stores(ins):
+        if isinstance(val, ast.Name) and val.id == task_p:
+            model.setdefault('tasks_attr', table.attr)
+            model.setdefault('tasks_store', (st, key))
+    if 'add_call' in model and 'id_param' in model:
+        ia = bind_args(model['add_call'], add).get(model['id_param'])
+        if ia is not None:
+            m = match(f"{task_p}.$k", Expander(ctx.prog, ins, ctx.typer).expand(ia))
+            if m:
+                model['key_attr'] = m['k']
+    end_p = init.params[2] if len(init.params) > 2 else None
+    earg = bind_args(R.ctor_call, init).get(end_p) if end_p else None
+    model['end_param'] = end_p
+    model['end_none'] = earg is None or (isinstance(earg, ast.Constant) and earg.value is None)
+    for k in ('links_attr', 'nodes_attr', 'tasks_attr'):
+        model.setdefault(k, '_unidentified_' + k)
 
 
 # ---------------------------------------------------------------------------------------------------------------------
@@ -274,14 +343,27 @@ def _leaf_arcs(ctx, R: Roles, model, o):
     if not all(fresh) or R.new_node is None:
         o.undecided(add, st, linkcall, "start / end of the arc are not results of the fresh-node helper")
         return
-    # distinct calls (two different definitions)
-    orig = [c for c, t in R.self_calls(add) if t is con and bind_args(c, con).get(p_units) is not None
-            and same(exa.expand(bind_args(c, con)[p_units]), u)]
+    # distinct nodes: the two arguments must come from two different calls of the fresh-node helper
+    orig = [c for c in R.calls_to(add, con) if not acfg.enclosing_fors(acfg.node_containing(c))]
     oc = bind_args(orig[0], con) if orig else {}
-    if orig and isinstance(oc.get(p_start), ast.Name) and isinstance(oc.get(p_end), ast.Name) and \
-            oc[p_start].id == oc[p_end].id:
-        o.refute(add, st, orig[0], "the arc starts and ends in the same node")
-        return
+    fla = flow_of(add)
+
+    def origin(a, at):
+        for _ in range(6):
+            if isinstance(a, ast.Name):
+                d = fla.unique_def(a.id, at)
+                if d is None or d.kind != 'assign':
+                    return None
+                a, at = d.value, d.node
+            else:
+                return id(a)
+        return None
+    if orig:
+        at0 = acfg.node_containing(orig[0])
+        o1, o2 = origin(oc.get(p_start), at0), origin(oc.get(p_end), at0)
+        if o1 is not None and o1 == o2:
+            o.refute(add, st, orig[0], "the arc starts and ends in the same node: the work has no length in the network")
+            return
     model['arc_start'] = oc.get(p_start)
     model['arc_end'] = oc.get(p_end)
     nn = R.new_node
@@ -579,11 +661,7 @@ def _inherit_registered(ctx, R: Roles, model, o_inh, o_reg):
     ins, add = R.insert, R.add
     cfg = cfg_of(ins)
     if 'add_call' not in model:
-        calls = R.calls_to(ins, add)
-        if len(calls) != 1:
-            raise AnalysisError(f"{ins.qual}: expected exactly one call of the arc builder")
-        model['add_call'] = calls[0]
-        model['task_param'] = ins.params[1]
+        raise AnalysisError(f"{ins.qual}: expected exactly one call of the arc builder")
     call = model['add_call']
     task_p = model['task_param']
     an = cfg.node_containing(call)
@@ -610,10 +688,10 @@ def _inherit_registered(ctx, R: Roles, model, o_inh, o_reg):
             o.undecided(ins, e.node if hasattr(e.node, 'lineno') else call, e.node if isinstance(e.node, ast.AST) else call,
                         "predecessor list of the arc: " + e.msg)
         return
-    key_attrs = {k[-1] for k in ids if k}
+    key_attrs = {(k[-1][1:] if k and k[-1].startswith('@') else None) for k in ids}
     objs: U.Paths = {}
     for k, c in ids.items():
-        objs = U._union(objs, {(k[:-1] if k and k[-1] == 'id' else k): c})
+        objs = U._union(objs, {(k[:-1] if k and k[-1].startswith('@') else k): c})
     objs = U.normalise(objs)
     desc = ', '.join(U.path_text(k, task_p) for k in sorted(objs)) or '(nothing)'
 
@@ -628,7 +706,9 @@ def _inherit_registered(ctx, R: Roles, model, o_inh, o_reg):
         else:
             weird.append(k)
     for k in weird:
-        if all(op in U.RELS or op in ('leaves', 'leaf?', 'nonleaf?') for op in k):
+        if any(op.startswith('@') for op in k):
+            o.undecided(ins, call, U.path_text(k, task_p), "dependency arcs keyed through an attribute chain")
+        elif all(op in U.RELS or op in ('leaves', 'leaf?', 'nonleaf?') for op in k):
             o.refute(ins, call, U.path_text(k, task_p), f"dependency arcs are drawn from `{U.path_text(k, task_p)}`, which is not a "
                                                          f"predecessor set of the task or of one of its ancestors")
         else:
@@ -707,12 +787,7 @@ def _inherit_registered(ctx, R: Roles, model, o_inh, o_reg):
     early = []
     memo = None
     unknown_ret = False
-    tasks_attr = None
-    for st, table, key, val in _subscript_stores(ins):
-        if isinstance(val, ast.Name) and val.id == task_p:
-            tasks_attr = table.attr
-            model['tasks_store'] = (st, key)
-    model['tasks_attr'] = tasks_attr
+    tasks_attr = model.get('tasks_attr')
     for r in [n for n in walk_no_nested(ins.node) if isinstance(n, ast.Return)]:
         rn = cfg.node_of(r)
         if rn is None or not cfg.is_reachable(rn) or cfg.can_reach(an, rn):
@@ -1065,7 +1140,7 @@ def _passes(ctx, R: Roles, model, o, o_eq):
     for t, p, _ in others:
         o.undecided(calc, sel['stmt'], t, "additional selection condition besides the slack test: " + ('' if p else 'not ') + src(t)[:80])
     # result element and order
-    tasks_attr = model.get('tasks_attr') or '?'
+    tasks_attr = model.get('tasks_attr')
     elt = sel['elt']
     kv = sel['key_var']
     links_attr = model.get('links_attr')
